@@ -242,10 +242,12 @@ def run_case(tm, kind, names, restore, warm):
             o["faces"] = (np.array(b.faces) + 1).tolist()
             r["obs"] = o
             return r
-        if kind == "voxel":
+        if kind in ("voxel", "voxel_identity"):
             d = np.array([[[1, 0], [1, 1], [0, 1]], [[0, 0], [1, 0], [1, 1]]], dtype=bool)
             T = np.diag([2.0, 2.0, 2.0, 1.0])
             T[:3, 3] = [2, 0, 4]
+            if kind == "voxel_identity":
+                T = np.eye(4)       # a grid that has not been placed yet (shortcuts for the identity live here)
             g = tm.voxel.VoxelGrid(d, transform=T)
             v0 = np.array(g.points)
             r = base_record(kind, v0, [], names, restore)
@@ -380,7 +382,7 @@ def main(argv):
     V = Verdict(PROP, tier)
     tm = import_trimesh()
     names = list(MAPS)
-    kinds3 = ["mesh_box", "mesh_tet", "cloud", "path3d", "prim_box", "voxel", "scene"]
+    kinds3 = ["mesh_box", "mesh_tet", "cloud", "path3d", "prim_box", "voxel", "voxel_identity", "scene"]
     jobs = []
     for kind in kinds3 + ["path2d"]:
         ns = PLANAR if kind == "path2d" else names
